@@ -168,9 +168,10 @@ const (
 	stDefault = iota
 	stLfsStorage
 	stReference
+	stAbsStorage // lfs.storage = absolute path outside the repository (exists before a clone: may hold left-over partial downloads)
 )
 
-var storageNames = []string{"default", "lfs.storage", "reference"}
+var storageNames = []string{"default", "lfs.storage", "reference", "lfs.storage-absolute"}
 
 type filterSpec struct {
 	name       string
@@ -248,9 +249,18 @@ const (
 	ftBatchOnce // object-level error 503 in the first batch response that names it, fine afterwards
 	ftGet404    // storage GET answers 404, always
 	ftGet500x1  // storage GET answers 500 once, fine afterwards
+	// behaviour of the storage server towards a Range request (resumed download) for ONE object; requests without a
+	// Range header are answered normally (c04_shapes_verif_test.go)
+	ftRangeHonour      // 206 + Content-Range + the requested remainder
+	ftRangeIgnore      // 200 + the whole object (RFC 9110: a server may ignore Range)
+	ftRange416         // 416 Range Not Satisfiable
+	ftRangeNoCR        // 206 + the remainder, but no Content-Range header
+	ftRangeWrongStart  // 206 + Content-Range "bytes 0-..." + the whole object
+	ftRange200Tail     // broken peer: 200 + only the requested remainder
 )
 
-var faultNames = []string{"none", "batch-object-404", "batch-object-503-once", "storage-404", "storage-500-once"}
+var faultNames = []string{"none", "batch-object-404", "batch-object-503-once", "storage-404", "storage-500-once",
+	"range-honoured", "range-ignored", "range-416", "range-206-without-content-range", "range-206-wrong-start", "range-200-with-remainder-only"}
 
 func (cs *caseSpec) faultName() string {
 	if cs.fault == ftNone {
@@ -285,6 +295,10 @@ type caseSpec struct {
 	fmode     int       // fmRefs, fmAll, fmRecent
 	recent    recentCfg // --recent settings
 	cloneMode int       // cmPlain, cmNoCheckout, cmBare
+	// widened in round 2 (c04_shapes_verif_test.go)
+	skipClone bool   // cPull: the clone is made by `GIT_LFS_SKIP_SMUDGE=1 git clone` with the binary under test instead of copied from the prepared base
+	part      int    // pre-existing lfs/incomplete/<partOid>.part (partNames)
+	partOid   string // the object the partial file belongs to (== faultOid when a Range behaviour is set)
 }
 
 func (cs *caseSpec) id() string {
@@ -300,6 +314,12 @@ func (cs *caseSpec) id() string {
 		cs.lco.name, cs.cwd, cs.filter.name, cs.skip, storageNames[cs.storage], loc, strings.Join(pp, ","), cs.faultName())
 	if cs.cmd >= cFetchX {
 		id += cs.refsID()
+	}
+	if cs.skipClone {
+		id += "|prep=skip-smudge-clone"
+	}
+	if cs.part != partAbsent {
+		id += "|part=" + partNames[cs.part] + "@" + cs.partOid[:8]
 	}
 	return id
 }
@@ -318,7 +338,8 @@ func (cs *caseSpec) trivial() bool {
 			return false
 		}
 	}
-	return cs.filter.name == "none" && !cs.skip && cs.storage == stDefault && cs.fault == ftNone && cs.lco.name == "(none)" && cs.cwd == ""
+	return cs.filter.name == "none" && !cs.skip && cs.storage == stDefault && cs.fault == ftNone && cs.lco.name == "(none)" && cs.cwd == "" &&
+		!cs.skipClone && cs.part == partAbsent && cs.world < shapesW
 }
 
 func (cs *caseSpec) state(p string) pstate {
@@ -704,6 +725,8 @@ func makePlan(allDefs []*worldDef, thorough bool) *plan {
 		})
 	}
 	addRefSlices(add, allDefs, thorough)
+	addShapeSlices(add, allDefs, thorough)  // appended last: the slice indices of the earlier rounds stay what they were
+	addResumeSlices(add, allDefs, thorough)
 	return pl
 }
 
@@ -831,10 +854,35 @@ func (ev *env) execCase(cs *caseSpec) (res vx.Result) {
 	useRef := cs.storage == stReference
 
 	// ---- prepare the repository
+	prepBad := ""
 	if cs.cmd == cClone {
 		os.MkdirAll(caseDir, 0755)
 		if useRef {
 			copyTree(filepath.Join(ev.base(baseKey{cs.world, "main", false}), "local"), refrepo)
+		}
+	} else if cs.skipClone {
+		// the documented fast path: GIT_LFS_SKIP_SMUDGE=1 git clone (filter-process of the binary under test, skip mode), then git lfs pull
+		os.MkdirAll(caseDir, 0755)
+		args := []string{"clone", "-q"}
+		if cs.head != "main" {
+			args = append(args, "-b", cs.head)
+		}
+		pr := ev.git(caseDir, []string{"GIT_LFS_SKIP_SMUDGE=1"}, append(args, bw.remote, local)...)
+		if pr.TimedOut || pr.Code == -2 {
+			res.Inconcl = "skip-smudge clone (preparation) timeout or not started (tool environment)"
+			return
+		}
+		if pr.Code != 0 {
+			// an unsuccessful clone: the statement says nothing; there is no repository to pull in
+			cnt("prep.skip-smudge-clone-failed(not-judged)")
+			res.Outcome = fmt.Sprintf("pull after skip-smudge clone: clone exit=%d", pr.Code)
+			res.NonTrivial = []string{cs.id()}
+			return
+		}
+		for _, p := range T.lfsPaths() {
+			if b, err := os.ReadFile(filepath.Join(local, p)); err != nil || string(b) != gitx.PointerText(T[p]) {
+				prepBad = p
+			}
 		}
 	} else {
 		copyTree(ev.base(baseKey{cs.world, cs.head, useRef}), caseDir)
@@ -847,6 +895,13 @@ func (ev *env) execCase(cs *caseSpec) (res vx.Result) {
 	lfsdir := filepath.Join(local, ".git", "lfs")
 	if cs.storage == stLfsStorage {
 		lfsdir = filepath.Join(local, ".git", "altlfs")
+	}
+	if cs.storage == stAbsStorage {
+		lfsdir = filepath.Join(caseDir, "ext-lfs")
+	}
+	if cs.part != partAbsent {
+		// left-over of an interrupted earlier download (the object store itself is intact: it does not hold the object)
+		gitx.WriteFile(filepath.Join(lfsdir, "incomplete"), cs.partOid+".part", partBytes(cs.part, ev.contentOf(cs.partOid)), 0644)
 	}
 	for i, oid := range cs.needed {
 		switch cs.loc[i] {
@@ -869,6 +924,9 @@ func (ev *env) execCase(cs *caseSpec) (res vx.Result) {
 	}
 	if cs.storage == stLfsStorage {
 		cfgLines = append(cfgLines, "storage = altlfs")
+	}
+	if cs.storage == stAbsStorage {
+		cfgLines = append(cfgLines, "storage = "+lfsdir)
 	}
 	if cs.cmd != cClone {
 		f, err := os.OpenFile(filepath.Join(local, ".git", "config"), os.O_APPEND|os.O_WRONLY, 0644)
@@ -1014,6 +1072,11 @@ func (ev *env) execCase(cs *caseSpec) (res vx.Result) {
 	if cs.cmd == cLco {
 		selName = "args=" + cs.lco.name
 	}
+	// new dimensions get their class into the fingerprint (the fingerprints of the earlier slices are unchanged)
+	selBase := selName
+	if prepBad != "" {
+		viol("C04:skipped-not-pointer:clone:"+selBase+cs.dimTag(prepBad), fmt.Sprintf("GIT_LFS_SKIP_SMUDGE=1 git clone succeeded but %s is not the canonical pointer afterwards", prepBad))
+	}
 	// selected(p): is p selected by the include/exclude settings that are documented to govern this command
 	selected := func(p string) bool {
 		switch cs.cmd {
@@ -1025,7 +1088,7 @@ func (ev *env) execCase(cs *caseSpec) (res vx.Result) {
 		return allows(inc, exc, p)
 	}
 	faultTag := ""
-	if cs.fault != ftNone {
+	if cs.fault != ftNone && cs.fault < ftRangeHonour { // the Range behaviours are named by dimTag (",peer=...")
 		faultTag = ",fault=" + faultNames[cs.fault]
 	}
 	cwdClass := "cwd=root"
@@ -1038,6 +1101,7 @@ func (ev *env) execCase(cs *caseSpec) (res vx.Result) {
 	}
 	var outParts []string
 	for _, p := range T.lfsPaths() {
+		selName := selBase + cs.dimTag(p)
 		D := T[p]
 		oid := gitx.Oid(D)
 		shaD, shaP := oid, gitx.Oid([]byte(gitx.PointerText(D)))
@@ -1238,6 +1302,36 @@ func (ev *env) execCase(cs *caseSpec) (res vx.Result) {
 		cnt("exit-nonzero." + cmdName)
 	}
 	res.Outcome = fmt.Sprintf("%s exit=%d %s", cmdName, r.Code, strings.Join(outParts, ","))
+	if cs.skipClone {
+		res.Outcome = "skip-smudge-clone+" + res.Outcome
+	}
+	if cs.world == shapesW {
+		res.Outcome += " shape=" + shapeNames[cs.treeRef()]
+	}
+	if cs.part != partAbsent || cs.fault >= ftRangeHonour {
+		// what the resumed download looked like on the wire and what is left in lfs/incomplete (observed, not judged)
+		rq := ev.rangeRequests(url)
+		left := "none"
+		if fi, err := os.Stat(filepath.Join(lfsdir, "incomplete", cs.partOid+".part")); err == nil {
+			switch sz := fi.Size(); {
+			case sz == int64(len(ev.contentOf(cs.partOid))):
+				left = "full-length"
+			case sz == int64(len(partBytes(cs.part, ev.contentOf(cs.partOid)))):
+				left = "as-before"
+			default:
+				left = "other-length"
+			}
+		}
+		res.Outcome += fmt.Sprintf(" part=%s peer=%s range-requests=%d part-left=%s", partNames[cs.part], faultNames[cs.fault], rq, left)
+		if rq > 0 {
+			cnt("R.resume.range-request-sent/" + faultNames[cs.fault])
+			if ok {
+				cnt("R.resume.success-after-range-request/" + partNames[cs.part] + "/" + faultNames[cs.fault])
+			}
+		} else {
+			cnt("R.resume.no-range-request/" + partNames[cs.part])
+		}
+	}
 	if !cs.trivial() {
 		res.NonTrivial = []string{cs.id()}
 	}
@@ -1389,9 +1483,9 @@ func TestVerifC04(t *testing.T) {
 	gitx.CmdTimeout = 90 * time.Second
 	srv := fakelfs.New()
 	srv.Put(cX)
-	defs := append(worlds(), refsWorld())
+	defs := append(worlds(), refsWorld(), shapesWorld())
 	ev := &env{gw: gw, srv: srv, defs: defs, built: map[int]*builtWorldEntry{}, bases: map[baseKey]*baseEntry{}, root: gw.Root,
-		cases: filepath.Join(gw.Root, "cases"), faults: map[string]int{}}
+		cases: filepath.Join(gw.Root, "cases"), faults: map[string]int{}, ranges: map[string]int{}}
 	os.MkdirAll(ev.cases, 0755)
 	if ev.gitPath, err = exec.LookPath("git"); err != nil {
 		fmt.Println("TOOL-ERROR git not found:", err)
@@ -1445,7 +1539,10 @@ func TestVerifC04(t *testing.T) {
 		stateNames = append(stateNames, pstateNames[s])
 	}
 	c.Bounds["worlds"] = []string{"linear: c1{a,b}=v1 -> c2{a',b,dir/c}=main", "merge: c1=v1; feature{a,b',dir/c}; main{a',b}; merge{a',b',dir/c}=main", "dups: {a.bin==dir/c.bin, b.bin 10 bytes, e.bin empty, 'sp ace.bin' 1024 bytes}=main",
-		"refs3: c0{a=V,s=S}=tag v1; main{a=M,s=S}, one{a=O,s=S}, two{b=T,s=S} (a.bin removed), old{a=D,s=S} (dated 2005) each one commit on c0: every ref has one object of its own plus the shared S; the clone has local branches main, one and origin/{main,one,two,old}"}
+		"refs3: c0{a=V,s=S}=tag v1; main{a=M,s=S}, one{a=O,s=S}, two{b=T,s=S} (a.bin removed), old{a=D,s=S} (dated 2005) each one commit on c0: every ref has one object of its own plus the shared S; the clone has local branches main, one and origin/{main,one,two,old}",
+		"shapes: every ref has the tree {a.bin, a/in.bin, a0.bin, d1/d2/d3/d4/deep.bin, run.bin (mode 100755), 'sp ace/my file.bin', z.bin: 7 LFS files with 7 distinct objects; ln.bin = symbolic link to a.bin; plain.txt; .gitmodules} plus gitlink (160000) entries, never populated: main{lib: between deep.bin and run.bin}, gitlink-first{a-lib: before every LFS path}, gitlink-nested{a/lib: inside a directory, between a/in.bin and a0.bin}, gitlink-last{zlib: after every LFS path}, gitlink-none{}, (thorough) gitlink-two{a-lib, lib}"}
+	c.Bounds["partial_download_states"] = partNames
+	c.Bounds["peer_range_behaviours"] = faultNames[ftRangeHonour:]
 	c.Bounds["max_refs_on_fetch_command_line"] = 3
 	c.Bounds["recent_window_days"] = recentDays
 	c.Bounds["perturbation_alphabet"] = stateNames
@@ -1463,6 +1560,8 @@ func TestVerifC04(t *testing.T) {
 		"fetch-all/refs3 = git lfs fetch --all [origin <ref>...] for {no ref, every ordered sequence of 1..2 refs (thorough: out of 4 refs)} x faults as before, demanded = every object of every commit reachable from the refs (all refs when none is given), fetch-all-cfgfilter = the same commands under a configured lfs.fetchexclude / lfs.fetchinclude (documented to be ignored by --all); " +
 		"fetch-recent/refs3 = {--recent, lfs.fetchrecentalways} x lfs.fetchrecentremoterefs {default, false} x lfs.fetchrecentcommitsdays {0, 3650} x ref arguments {none, v1} (thorough: more arguments, -X s.bin) x faults on every demanded object, fetch-recent-commits-only = lfs.fetchrecentrefsdays=0 with lfs.fetchrecentcommitsdays=3650 x ref arguments x faults, demanded = objects of the named refs + of the recent branches (commit date inside the window; branch old is outside) + previous versions of files changed by the commits of those refs; " +
 		"pull-switch/refs3 = git lfs pull on {one, two, v1} after main x every subset of the objects of main and of the new head already local x {no fault, 4 fault kinds x each object of the new head}; lfsclone/refs3 = git lfs clone {plain, --no-checkout, --bare} x {default branch, -b one, -b v1} x {no filter, -X s.bin} (thorough: 5 filters) x {no fault, 4 fault kinds x each object of the cloned ref}; storage-* = {fetch, pull, lfs checkout} x every location vector (3^3 with a reference store, 2^3 with lfs.storage) x 2 selections; clone/*, clone-reference, git-checkout/* = branch or (from,to) pair x subsets x configured filters x skip-smudge.  " +
+		"shapes-scan/shapes = tree shape (gitlink position: 5 refs quick, 6 thorough) x {git lfs fetch, git lfs fetch origin <ref> from main, git lfs pull, git lfs pull after a real GIT_LFS_SKIP_SMUDGE=1 git clone} x local-store presets {none, every second needed object} (thorough: + the complementary set, all, all but each one) x {no filter, -I 'a/,sp ace/'} (thorough: + -X a/); shapes-lco = shape x git lfs checkout {no argument, 'sp ace/my file.bin'} (thorough: + d3 from d1/d2) x {all, every second object local}; shapes-clone = shape x git clone -b x configured filter x skip-smudge; shapes-lfsclone = shape x git lfs clone -b x -I; " +
+		"resume/linear = {fetch, pull, git clone with lfs.storage naming an existing absolute directory} x which of the 3 needed objects has a left-over lfs/incomplete/<oid>.part x its content {absent, first half, garbage of that length, whole object} (thorough: + 1 byte, size-2, size-1, longer garbage, empty) x answer of the storage server to a Range request for that object {206 honoured, 200 whole object, 416} (thorough: + 206 without Content-Range, 206 with start 0 and the whole object, 200 with only the remainder; x the other objects {absent, local}).  " +
 		"distinct_nontrivial = distinct cases other than the plain one (empty local store, no filter, no perturbation, default storage, no skip)"
 	c.Assumptions = []string{
 		"'the pointer recorded for it': a working-tree file counts as the recorded pointer iff it is smaller than 1024 bytes and decodes (docs/spec.md, incl. accepted non-canonical forms: CRLF, legacy version URL, ext lines, surrounding whitespace, any mode) to the oid AND size of the pointer blob at that path in HEAD (index == HEAD for every LFS path except under 'deleted-staged'); every other existing file (user text, >=1024-byte padding of the pointer, the object bytes, other/ghost pointers, undecodable near-pointers, the same oid with another size, empty file, read-only or executable edits, plain and untracked files) must be byte-, mode- and type-identical after `git lfs pull` / `git lfs checkout`, whatever the exit status",
@@ -1479,6 +1578,8 @@ func TestVerifC04(t *testing.T) {
 		"dates: all commits are dated 2024-01-01 except branch old (2005-06-01); the recent window is 3650 days, so for any wall-clock date between 2024-01-02 and 2033-12-29 the 2024 tips are inside and the 2005 tip is outside the window by years (no dependence on the time of day)",
 		"`git lfs clone` (deprecated front end: clone without filters, then pull; with --no-checkout/--bare 'just fetch'): -I/-X override lfs.fetchinclude/lfs.fetchexclude (git-lfs-clone(1)); after exit 0 every selected path of the cloned ref has a hash-valid object in the store of the new repository (.git/lfs, or <dir>/lfs for --bare) and, without --no-checkout/--bare, the original bytes, excluded paths hold the canonical pointer; with --no-checkout/--bare no working-tree file is judged (documented: no checkout); a plain `git clone --no-checkout` never runs git-lfs and is not enumerated",
 		"fingerprints of the several-ref slices carry ',download-failed' when the missing object is the one whose download the server refused (a lost failure status) and no suffix when an object is missing although nothing failed (an object that was never requested)",
+		"tree shapes: a gitlink (submodule) entry, a symbolic link (even one named *.bin) and the mode of a file are no LFS content: the LFS-tracked files of a tree are its regular-file entries matching the .gitattributes pattern, whatever else the tree holds; the submodule is never populated (git clone without --recurse-submodules leaves an empty directory), the symbolic link and that directory fall under 'every other working-tree entry must stay identical' for pull / lfs checkout; the mode of a materialised file is observed, not judged",
+		"left-over partial downloads: 'started from an intact local store' is about lfs/objects; a file lfs/incomplete/<oid>.part left by an interrupted earlier download (any content) leaves the store intact, so the statement applies in full: after exit 0 the object must be hash-valid in the store and the file materialised.  A server may answer a Range request with 206, 200 + whole object (RFC 9110 15.3.7 / 14.2) or 416; the three further thorough-tier answers are broken peers, for which only 'exit 0 => valid' is demanded (a failing command is fine).  How often a Range request was sent and what is left in lfs/incomplete is recorded in the outcome, not judged",
 		"the local store starts intact: it holds exactly the stated subset of valid objects; the fake server is complete; a fault concerns exactly one object of one case (per-case endpoint URL, deterministic counters, no timing; fault cases run with lfs.transfer.maxretries=3 and lfs.transfer.maxretrydelay=1 so that a permanently failing object costs seconds, not minutes); linear and one-merge histories, <=5 LFS files, <=3 distinct objects per tree; git 2.39.5 (ls-tree code path of ScanLFSFiles); subprocess timeout 90 s is a tool guard (=> inconclusive)",
 	}
 	workers := 2 * runtime.NumCPU()
